@@ -52,7 +52,8 @@ HistBound == Len(hist) < MaxLevel
 
 \* export of all short histories: every known call, one unknown call of each family
 \* and update_model with a vector one entry longer than the fitted set (refused; the history goes on)
-ExWrong == \E k \in K : UpdateWrong([i \in 1..(Len(compiled) + 1) |-> k])
+\* (once something is compiled: the refusal of any vector by an empty set-up is in the preset histories)
+ExWrong == Len(compiled) > 0 /\ \E k \in K : UpdateWrong([i \in 1..(Len(compiled) + 1) |-> k])
 ExNext == KnownCall \/ Unknown("enable_fit", "nope") \/ Unknown("disable_derived", "nope") \/ ExWrong
 ExSpec == Init /\ [][ExNext]_vars
 
